@@ -1,3 +1,4 @@
+import math
 import re
 import typing
 from collections import deque
@@ -1014,7 +1015,7 @@ class Constraints:
     @classmethod
     def lax_ge(cls, value, ge):
         if value < ge:
-            return cls._lax_bound(value, ge)
+            return cls._lax_bound(value, ge, upper=False)
         return value
 
     @classmethod
@@ -1032,14 +1033,17 @@ class Constraints:
     @classmethod
     def lax_le(cls, value, le):
         if value > le:
-            return cls._lax_bound(value, le)
+            return cls._lax_bound(value, le, upper=True)
         return value
 
     @classmethod
-    def _lax_bound(cls, value, bound):
+    def _lax_bound(cls, value, bound, upper: bool):
         # bounds may be declared in a tolerated numeric type (int bound for a float / Decimal rule)
         # the clamped result must keep the type of the value
         if isinstance(value, NUM_TYPES) and type(bound) is not type(value):
+            if isinstance(value, int) and bound == bound and bound not in (float("inf"), float("-inf")):
+                # a fractional bound of an int rule: the nearest integer that still satisfies the bound
+                bound = math.floor(bound) if upper else math.ceil(bound)
             return type(value)(bound)
         return bound
 
